@@ -25,14 +25,16 @@ CONSTANTS CurveNames,   \* names of EcCurves!AllCurves to enumerate
           AlgSel,       \* subset of Algs
           Kinds,        \* subset of {"hmap", "sign", "vgrid", "vlist"}
           Seed,         \* seeds the pseudo-random picks on the 13/16-bit curves
-          SignEAll,     \* e-indices signed with every private key (8-bit) / the key sample (others)
-          SignDFew,     \* private-key codes signed with every e of the corpus   (code >= 1000 means n - (code - 1000))
-          VgPairs,      \* codes qi * 1000 + ei  -> full grid
-          VlQ, VlE      \* candidate-key indices x e-indices -> pair list
-VARIABLES kind, c, alg, a1, a2, out
-vars == << kind, c, alg, a1, a2, out >>
+          SignEAllE, SignEAllG,   \* values of e (ECDSA / GOST) signed with every private key (8-bit) / the key sample (others)
+          SignDFew,     \* private keys signed with every e of the corpus
+          VgPairsE, VgPairsG,     \* codes qi * 100000 + e  (candidate-key index, value of e; ECDSA / GOST) -> full grid
+          VlQ, VlEE, VlEG         \* candidate-key indices x values of e (ECDSA / GOST) -> pair list
+VARIABLES vKind, vCurve, vAlg, vA1, vA2, vOut
+vars == << vKind, vCurve, vAlg, vA1, vA2, vOut >>   \* (names that no operator parameter uses: a VARIABLE called c or alg
+                                                     \*  makes TLC treat every definition with such a parameter as state-level and stop caching constants)
 
 Small(cv) == cv.m = 8
+PerAlg(al, forEcdsa, forGost) == IF al = "ecdsa" THEN forEcdsa ELSE forGost
 Top(cv) == TwoTo(8 * FieldBytes(cv)) - 1                  \* largest value FieldBytes octets can hold
 SetToSeq(S) == LET RECURSIVE F(_, _)                     \* ascending
                    F(U, acc) == IF U = {} THEN acc
@@ -72,11 +74,10 @@ ESeq(cv, al) == SetToSeq(EAllSet(cv, al))
 
 \* random octets (as the integer they hold) and the secrets they may stand for
 RndVals(cv) == IF Small(cv) THEN 0..Top(cv)
-               ELSE BVals(cv) \cup { 3, 255, 256, 257, Top(cv) - 1 } \cup Rnd(Seed + 11, 12, Top(cv) + 1, { })
+               ELSE BVals(cv) \cup { 3, 255, 256, 257, Top(cv) - 1 } \cup Rnd(Seed + 11, 4, Top(cv) + 1, { })
 KSeq(cv) == IF Small(cv) THEN [i \in 1..cv.n |-> i - 1]
             ELSE SetToSeq(UNION { SecretSet(x, cv.n) : x \in RndVals(cv) })
 \* private keys
-DCode(cv, code) == IF code >= 1000 THEN cv.n - (code - 1000) ELSE code
 DSample(cv) == { 1, 2, 3, cv.n - 2, cv.n - 1 } \cup { 1 + x : x \in Rnd(Seed + 5, 6, cv.n - 1, { }) }
 DAll(cv) == IF Small(cv) THEN 1..(cv.n - 1) ELSE DSample(cv)
 
@@ -109,7 +110,8 @@ TabOf(cv) ==
    THEN LET pts == GroupSeq(cv)   gm == MulTable(cv, G(cv), cv.n)
         IN [ gm |-> gm, qs |-> TLCEval(QSeqSmall(cv, pts, gm)), ks |-> TLCEval(KSeq(cv)),
              es |-> TLCEval([al \in Algs |-> ESeq(cv, al)]), hs |-> TLCEval(HashSeq(cv)) ]
-   ELSE [ gm |-> << >>, qs |-> TLCEval(QSeqBig(cv)), ks |-> TLCEval(KSeq(cv)),
+   ELSE [ gm |-> LET ks == KSeq(cv) IN [i \in 1..Len(ks) |-> Mul(cv, ks[i], G(cv))],     \* index i = KSeq[i]*G
+          qs |-> TLCEval(QSeqBig(cv)), ks |-> TLCEval(KSeq(cv)),
           es |-> TLCEval([al \in Algs |-> ESeq(cv, al)]), hs |-> TLCEval(HashSeq(cv)) ]
 Tab == TLCEval([nm \in CurveNames |-> TLCEval(TabOf(CurveByName(nm)))])
 
@@ -119,6 +121,9 @@ QTab(cv, Q) == IF Small(cv) /\ Q # Inf /\ OnCurve(cv, Q) THEN MulTable(cv, Q, cv
 MulQ(cv, Q, qt, j) == IF qt # << >> THEN qt[j + 1] ELSE Mul(cv, j, Q)
 
 SignT(cv, al, d, e, k) == SignW(cv, al, d, e, k, LAMBDA j : MulG(cv, j))
+\* the i-th secret of the curve's list (13/16-bit curves: its multiple of G is tabulated)
+SignI(cv, al, d, e, i) == LET t == Tab[cv.name] IN
+   IF Small(cv) THEN SignT(cv, al, d, e, t.ks[i]) ELSE SignW(cv, al, d, e, t.ks[i], LAMBDA j : t.gm[i])
 VerifyT(cv, al, Q, qt, e, r, s) == VerifyW(cv, al, Q, e, r, s, LAMBDA j : MulG(cv, j), LAMBDA j : MulQ(cv, Q, qt, j))
 
 (* ------------------------------------------------------------------ rows *)
@@ -137,14 +142,14 @@ HMap(cv) ==
         dall   |-> SetToSeq(DAll(cv)),
         qs     |-> t.qs ]
 
-SignRow(cv, al, d, e) == LET ks == Tab[cv.name].ks IN [i \in 1..Len(ks) |-> SignT(cv, al, d, e, ks[i])]
+SignRow(cv, al, d, e) == [i \in 1..Len(Tab[cv.name].ks) |-> SignI(cv, al, d, e, i)]
 
 Clip(cv, S) == { x \in S : x[1] \in 0..Top(cv) /\ x[2] \in 0..Top(cv) }
 PairSet(cv, al, q, e) ==
    LET own  == IF q.d # 0 THEN q.d ELSE q.rel
        ks   == Tab[cv.name].ks
-       sigs == IF own = 0 THEN { } ELSE { SignT(cv, al, own, e, ks[i]) : i \in 1..Len(ks) } \ { NoSig }
-       sub  == IF own = 0 THEN { } ELSE { SignT(cv, al, own, e, ks[i]) : i \in { i \in 1..Len(ks) : i % 8 = 2 } } \ { NoSig }
+       sigs == IF own = 0 THEN { } ELSE { SignI(cv, al, own, e, i) : i \in 1..Len(ks) } \ { NoSig }
+       sub  == IF own = 0 THEN { } ELSE { SignI(cv, al, own, e, i) : i \in { i \in 1..Len(ks) : i % 8 = 2 } } \ { NoSig }
        alt  == UNION { { << x[1], x[2] + 1 >>, << x[1], x[2] - 1 >>, << x[1] + 1, x[2] >>, << x[1], cv.n - x[2] >>,
                          << x[2], x[1] >>, << x[1] + cv.n, x[2] >>, << x[1], x[2] + cv.n >> } : x \in sub }
    IN  (BVals(cv) \X BVals(cv)) \cup sigs \cup Clip(cv, alt)
@@ -159,76 +164,77 @@ VGrid(cv, al, q, e) ==
 
 (* ------------------------------------------------------------------ states *)
 CurveSet == { CurveByName(nm) : nm \in CurveNames }
-InitHMap  == /\ kind = "hmap" /\ "hmap" \in Kinds /\ c \in CurveSet /\ alg = "-" /\ a1 = 0 /\ a2 = 0 /\ out = HMap(c)
-InitSign  == /\ kind = "sign" /\ "sign" \in Kinds /\ c \in CurveSet /\ alg \in AlgSel
-             /\ \E ei \in 1..Len(Tab[c.name].es[alg]) :
-                  /\ a2 = ei
-                  /\ a1 \in (IF ei \in SignEAll THEN DAll(c) ELSE { }) \cup { DCode(c, dc) : dc \in SignDFew }
-             /\ out = SignRow(c, alg, a1, Tab[c.name].es[alg][a2])
-InitVGrid == /\ kind = "vgrid" /\ "vgrid" \in Kinds /\ c \in { cv \in CurveSet : Small(cv) } /\ alg \in AlgSel
-             /\ \E code \in VgPairs : a1 = code \div 1000 /\ a2 = code % 1000
-             /\ a1 \in 1..Len(Tab[c.name].qs) /\ a2 \in 1..Len(Tab[c.name].es[alg])
-             /\ out = VGrid(c, alg, Tab[c.name].qs[a1], Tab[c.name].es[alg][a2])
-InitVList == /\ kind = "vlist" /\ "vlist" \in Kinds /\ c \in CurveSet /\ alg \in AlgSel
-             /\ a1 \in VlQ \cap 1..Len(Tab[c.name].qs) /\ a2 \in VlE \cap 1..Len(Tab[c.name].es[alg])
-             /\ out = VList(c, alg, Tab[c.name].qs[a1], Tab[c.name].es[alg][a2])
+InitHMap  == /\ vKind = "hmap" /\ "hmap" \in Kinds /\ vCurve \in CurveSet /\ vAlg = "-" /\ vA1 = 0 /\ vA2 = 0 /\ vOut = HMap(vCurve)
+InitSign  == /\ vKind = "sign" /\ "sign" \in Kinds /\ vCurve \in CurveSet /\ vAlg \in AlgSel
+             /\ \E ei \in 1..Len(Tab[vCurve.name].es[vAlg]) :
+                  /\ vA2 = ei
+                  /\ vA1 \in (IF Tab[vCurve.name].es[vAlg][ei] \in PerAlg(vAlg, SignEAllE, SignEAllG) THEN DAll(vCurve) ELSE { }) \cup (SignDFew \cap 1..(vCurve.n - 1))
+             /\ vOut = SignRow(vCurve, vAlg, vA1, Tab[vCurve.name].es[vAlg][vA2])
+InitVGrid == /\ vKind = "vgrid" /\ "vgrid" \in Kinds /\ vCurve \in { cv \in CurveSet : Small(cv) } /\ vAlg \in AlgSel
+             /\ \E code \in PerAlg(vAlg, VgPairsE, VgPairsG) : /\ vA1 = code \div 100000
+                                      /\ vA2 \in { i \in 1..Len(Tab[vCurve.name].es[vAlg]) : Tab[vCurve.name].es[vAlg][i] = code % 100000 }
+             /\ vA1 \in 1..Len(Tab[vCurve.name].qs)
+             /\ vOut = VGrid(vCurve, vAlg, Tab[vCurve.name].qs[vA1], Tab[vCurve.name].es[vAlg][vA2])
+InitVList == /\ vKind = "vlist" /\ "vlist" \in Kinds /\ vCurve \in CurveSet /\ vAlg \in AlgSel
+             /\ vA1 \in VlQ \cap 1..Len(Tab[vCurve.name].qs) /\ vA2 \in { i \in 1..Len(Tab[vCurve.name].es[vAlg]) : Tab[vCurve.name].es[vAlg][i] \in PerAlg(vAlg, VlEE, VlEG) }
+             /\ vOut = VList(vCurve, vAlg, Tab[vCurve.name].qs[vA1], Tab[vCurve.name].es[vAlg][vA2])
 Init == InitHMap \/ InitSign \/ InitVGrid \/ InitVList
-Next == UNCHANGED vars
+Next == FALSE /\ UNCHANGED vars                     \* every state of the corpus is an initial state
 Spec == Init /\ [][Next]_vars
 
 (* ------------------------------------------------------------------ checked by TLC on every state *)
-E  == Tab[c.name].es[alg][a2]
-Qr == Tab[c.name].qs[a1]
+E  == Tab[vCurve.name].es[vAlg][vA2]
+Qr == Tab[vCurve.name].qs[vA1]
 \* the corpus really contains the classes the property names
-CorpusShape == kind = "hmap" =>
-   LET hs == Tab[c.name].hs   Bn == FieldBytes(c) IN
-   /\ \E i \in 1..Len(hs) : Len(hs[i]) = Bn /\ BEInt(hs[i]) < c.n /\ BEInt(hs[i]) > 0
-   /\ \E i \in 1..Len(hs) : Len(hs[i]) = Bn /\ BEInt(hs[i]) = c.n
-   /\ \E i \in 1..Len(hs) : Len(hs[i]) = Bn /\ BEInt(hs[i]) > c.n
+CorpusShape == vKind = "hmap" =>
+   LET hs == Tab[vCurve.name].hs   Bn == FieldBytes(vCurve) IN
+   /\ \E i \in 1..Len(hs) : Len(hs[i]) = Bn /\ BEInt(hs[i]) < vCurve.n /\ BEInt(hs[i]) > 0
+   /\ \E i \in 1..Len(hs) : Len(hs[i]) = Bn /\ BEInt(hs[i]) = vCurve.n
+   /\ \E i \in 1..Len(hs) : Len(hs[i]) = Bn /\ BEInt(hs[i]) > vCurve.n
    /\ \E i \in 1..Len(hs) : Len(hs[i]) > Bn
    /\ (Bn > 1 => \E i \in 1..Len(hs) : Len(hs[i]) < Bn)
-   /\ \A al \in Algs : \A i \in 1..Len(Tab[c.name].es[al]) : Tab[c.name].es[al][i] \in 0..(c.n - 1)
-   /\ \A al \in Algs : 0 \notin (IF al = "gost" THEN SeqToSet(Tab[c.name].es[al]) ELSE { })
-   /\ \A i \in 1..Len(Tab[c.name].qs) : LET q == Tab[c.name].qs[i] IN
-         /\ (q.d # 0 => MulG(c, q.d) = q.pt /\ ValidPub(c, q.pt))
-         /\ (q.d = 0 => ~ValidPub(c, q.pt))
+   /\ \A al \in Algs : \A i \in 1..Len(Tab[vCurve.name].es[al]) : Tab[vCurve.name].es[al][i] \in 0..(vCurve.n - 1)
+   /\ \A al \in Algs : 0 \notin (IF al = "gost" THEN SeqToSet(Tab[vCurve.name].es[al]) ELSE { })
+   /\ \A i \in 1..Len(Tab[vCurve.name].qs) : LET q == Tab[vCurve.name].qs[i] IN
+         /\ (q.d # 0 => MulG(vCurve, q.d) = q.pt /\ ValidPub(vCurve, q.pt))
+         /\ (q.d = 0 => ~ValidPub(vCurve, q.pt))
 \* completeness: whatever the signer produces is in range and accepted by both verifiers
-Complete == kind = "sign" =>
-   LET Q == MulG(c, a1)   qt == QTab(c, Q) IN
-   \A i \in 1..Len(out) : out[i] # NoSig =>
-      /\ out[i][1] \in 1..(c.n - 1) /\ out[i][2] \in 1..(c.n - 1)
-      /\ VerifyT(c, alg, Q, qt, E, out[i][1], out[i][2])
+Complete == vKind = "sign" =>
+   LET Q == MulG(vCurve, vA1)   qt == QTab(vCurve, Q) IN
+   \A i \in 1..Len(vOut) : vOut[i] # NoSig =>
+      /\ vOut[i][1] \in 1..(vCurve.n - 1) /\ vOut[i][2] \in 1..(vCurve.n - 1)
+      /\ (Small(vCurve) \/ i % 4 = 2 => VerifyT(vCurve, vAlg, Q, qt, E, vOut[i][1], vOut[i][2]))    \* 13/16-bit curves: every 4th
 \* ... and VerifyPriv is that verdict by definition; the definitional evaluation agrees on a few secrets per state
-SignDefn == kind = "sign" =>
-   LET ks == Tab[c.name].ks IN
-   \A i \in { 1, 2, Len(ks), 1 + (a1 % Len(ks)) } :
-      /\ out[i] = Sign(c, alg, a1, E, ks[i])
-      /\ (out[i] # NoSig => VerifyPriv(c, alg, a1, E, out[i][1], out[i][2]) /\ Verify(c, alg, MulG(c, a1), E, out[i][1], out[i][2]))
-SignFails == kind = "sign" =>
-   LET ks == Tab[c.name].ks IN
+SignDefn == vKind = "sign" =>
+   LET ks == Tab[vCurve.name].ks IN
+   \A i \in { 1, 2, Len(ks), 1 + (vA1 % Len(ks)) } :
+      /\ vOut[i] = Sign(vCurve, vAlg, vA1, E, ks[i])
+      /\ (vOut[i] # NoSig => VerifyPriv(vCurve, vAlg, vA1, E, vOut[i][1], vOut[i][2]) /\ Verify(vCurve, vAlg, MulG(vCurve, vA1), E, vOut[i][1], vOut[i][2]))
+SignFails == vKind = "sign" =>
+   LET ks == Tab[vCurve.name].ks IN
    \A i \in 1..Len(ks) :
-      /\ (ks[i] = 0 => out[i] = NoSig)
-      /\ (out[i] = NoSig /\ ks[i] # 0 =>           \* only r = 0 or s = 0 make a proper secret fail
-            LET r == MulG(c, ks[i])[1] % c.n IN
-            r = 0 \/ (IF alg = "ecdsa" THEN AddMod(E, MulMod(r, a1, c.n), c.n) = 0
-                                       ELSE AddMod(MulMod(r, a1, c.n), MulMod(ks[i], E, c.n), c.n) = 0))
+      /\ (ks[i] = 0 => vOut[i] = NoSig)
+      /\ (vOut[i] = NoSig /\ ks[i] # 0 =>           \* only r = 0 or s = 0 make a proper secret fail
+            LET r == (IF Small(vCurve) THEN MulG(vCurve, ks[i]) ELSE Tab[vCurve.name].gm[i])[1] % vCurve.n IN
+            r = 0 \/ (IF vAlg = "ecdsa" THEN AddMod(E, MulMod(r, vA1, vCurve.n), vCurve.n) = 0
+                                       ELSE AddMod(MulMod(r, vA1, vCurve.n), MulMod(ks[i], E, vCurve.n), vCurve.n) = 0))
 \* soundness: the accept set of a valid key is EXACTLY what its owner can sign; an invalid key accepts nothing
 SigImage(cv, al, d, e) == { SignT(cv, al, d, e, k) : k \in 1..(cv.n - 1) } \ { NoSig }
-Exact == kind = "vgrid" =>
-   /\ (Qr.d # 0 => out.acc = SigImage(c, alg, Qr.d, E))
-   /\ (Qr.d = 0 => out.acc = { })
-   /\ \A x \in out.acc : x[1] \in 1..(c.n - 1) /\ x[2] \in 1..(c.n - 1)
-ListExact == kind = "vlist" =>
-   /\ out.acc \subseteq out.pairs
-   /\ (Qr.d = 0 => out.acc = { })
-   /\ (Qr.d # 0 /\ Small(c) => out.acc = out.pairs \cap SigImage(c, alg, Qr.d, E))
-   /\ (Qr.d # 0 => out.acc # { })                                         \* never vacuous: the owner's signatures are in the list
-   /\ \A x \in out.acc : x[1] \in 1..(c.n - 1) /\ x[2] \in 1..(c.n - 1)
-   /\ \A x \in { y \in out.pairs : (y[1] + y[2]) % 37 = 1 } :              \* definitional evaluation on a subset
-         (x \in out.acc) = Verify(c, alg, Qr.pt, E, x[1], x[2])
+Exact == vKind = "vgrid" =>
+   /\ (Qr.d # 0 => vOut.acc = SigImage(vCurve, vAlg, Qr.d, E))
+   /\ (Qr.d = 0 => vOut.acc = { })
+   /\ \A x \in vOut.acc : x[1] \in 1..(vCurve.n - 1) /\ x[2] \in 1..(vCurve.n - 1)
+ListExact == vKind = "vlist" =>
+   /\ vOut.acc \subseteq vOut.pairs
+   /\ (Qr.d = 0 => vOut.acc = { })
+   /\ (Qr.d # 0 /\ Small(vCurve) => vOut.acc = vOut.pairs \cap SigImage(vCurve, vAlg, Qr.d, E))
+   /\ (Qr.d # 0 => vOut.acc # { })                                         \* never vacuous: the owner's signatures are in the list
+   /\ \A x \in vOut.acc : x[1] \in 1..(vCurve.n - 1) /\ x[2] \in 1..(vCurve.n - 1)
+   /\ \A x \in { y \in vOut.pairs : (y[1] + y[2]) % 37 = 1 } :              \* definitional evaluation on a subset
+         (x \in vOut.acc) = Verify(vCurve, vAlg, Qr.pt, E, x[1], x[2])
 
-Emit == PrintT(ToJson([ kind |-> kind, curve |-> c.name, alg |-> alg, a1 |-> a1, a2 |-> a2,
-                        e |-> IF kind = "hmap" THEN 0 ELSE E,
-                        q |-> IF kind \in { "vgrid", "vlist" } THEN Qr ELSE [pt |-> Inf, d |-> 0, rel |-> 0],
-                        out |-> out ]))
+Emit == PrintT(ToJson([ kind |-> vKind, curve |-> vCurve.name, alg |-> vAlg, a1 |-> vA1, a2 |-> vA2,
+                        e |-> IF vKind = "hmap" THEN 0 ELSE E,
+                        q |-> IF vKind \in { "vgrid", "vlist" } THEN Qr ELSE [pt |-> Inf, d |-> 0, rel |-> 0],
+                        out |-> vOut ]))
 =============================================================================
